@@ -7,7 +7,7 @@ ALL_OPS = ["b_new", "b_static", "b_from_vec", "b_from_owner", "m_with_capacity",
            "b_split_off", "b_split_to", "b_copy_to_bytes", "b_truncate", "b_clear", "b_advance", "b_into_vec", "b_into_mut",
            "b_try_into_mut", "drop", "v_into_bytes", "m_split_off", "m_split_to", "m_split", "m_truncate", "m_advance",
            "m_reserve", "m_try_reclaim", "m_extend", "m_fill_spare", "m_unsplit", "m_freeze", "m_into_vec",
-           "m_clone", "m_clear", "m_copy_to_bytes", "m_resize", "b_slice_ref"]
+           "m_clone", "m_clear", "m_copy_to_bytes", "m_resize", "b_slice_ref", "b_clone_from"]
 
 MUT_OPS = ["m_with_capacity", "m_from_slice", "drop", "m_split_off", "m_split_to", "m_split", "m_truncate", "m_advance",
            "m_reserve", "m_try_reclaim", "m_extend", "m_fill_spare", "m_unsplit", "m_freeze", "m_into_vec", "b_try_into_mut",
